@@ -23,6 +23,7 @@ type HarnessSpec struct {
 	Unwind   int            `json:"unwind,omitempty"`
 	HavocLen int            `json:"havoc_len,omitempty"`
 	What     string         `json:"what,omitempty"`
+	Precise  string         `json:"precise_solver,omitempty"` // overrides the property's precise solver for this harness
 }
 
 type PropSpec struct {
@@ -136,7 +137,13 @@ func cmdCheck(args []string) int {
 	rc := 0
 	violations := 0
 	cexN := 0
+	propPrecise := preciseBin
 	for _, h := range hs {
+		// the precise (string-theory) solver may be chosen per harness
+		preciseBin = propPrecise
+		if h.Precise != "" && os.Getenv("VERIF_SOLVER") == "" {
+			preciseBin = h.Precise
+		}
 		cfg := defaultCfg()
 		if spec.TimeoutMs > 0 {
 			cfg.TimeoutMs = spec.TimeoutMs
